@@ -33,9 +33,11 @@ Init == /\ A!Init /\ B!Init
         /\ UpTo(cfgA, cut) = UpTo(cfgB, cut)
         /\ cfgA.events # cfgB.events            \* the two streams really differ after the cut
 
-\* lock-step: the same call on both sides
+\* lock-step: the same call on both sides (a reset asks for the same episode length and draws the same start)
+LastRec(h) == h[Len(h)]
 Next == /\ UNCHANGED cut
-        /\ \/ (A!Reset /\ B!Reset)
+        /\ \/ (A!Reset /\ B!Reset /\ LastRec(histA').start = LastRec(histB').start
+                                   /\ LastRec(histA').act = LastRec(histB').act)
            \/ (A!Step /\ B!Step)
 Spec == Init /\ [][Next]_vars
 
